@@ -148,7 +148,9 @@ def run(ctx):
             for c in [y for y in ast.walk(lp) if isinstance(y, ast.Call) and call_name(y) == "append" and call_recv(y) == resv]:
                 if isinstance(c.args[0], ast.Subscript) and norm(c.args[0].slice) == unparse(lp.target):
                     ok = all(isinstance(d.value, (ast.List, ast.Call)) and not getattr(d.value, "elts", None) for d in defs)
-    r.check(ok and len(defs) == 1, "%s#result-order" % sba.qname, "the result list is not a comprehension over the original keys",
+    # `X = [acc[k] for k in keys if k in acc] if acc else []` written as a statement: the other definition is the empty list
+    nonempty_defs = [d for d in defs if not (isinstance(d.value, (ast.List, ast.Tuple)) and not d.value.elts)]
+    r.check(ok and len(nonempty_defs) <= 1 and len(defs) - len(nonempty_defs) <= 1, "%s#result-order" % sba.qname, "the result list is not a comprehension over the original keys",
             where(sba, defs[0] if defs else sba.node), "caller receives responses in broker-answer order, not payload order")
 
     # ---- R5 accounting
